@@ -390,7 +390,7 @@ theorem otherArm_num {r : Resp} {n : Nat} (hk : r.key = .num n) :
     otherArm r = some (n,
       if (StatusKey.num n).starts2 then
         (if r.content.isEmpty then Action.retNone else Action.retSecondary (secondaryRet r))
-      else Action.raiseAlias n) := by
+      else (if (aliasBase n).isSome then Action.raiseAlias n else Action.raiseUnhandled)) := by
   unfold otherArm
   simp only [hk, StatusKey.code?]
   split <;> rfl
@@ -552,7 +552,7 @@ theorem info_ident (p : GParam) : p.info.ident = p.ident := rfl
 theorem moduleOk_nodup {op : Op} (h : moduleOk op = true) : ((sigOf op).map (·.1)).Nodup := by
   unfold moduleOk at h
   simp only [Bool.and_eq_true, decide_eq_true_eq] at h
-  have := h.1.1.1.1
+  have := h.1.1.1
   unfold defNames at this
   exact (List.nodup_cons.mp this).2
 
@@ -823,7 +823,7 @@ theorem select_retStrategy {rs : List Resp} {s : Nat} (h : selectAction rs s = .
       simp only at this
       split at this
       · split at this <;> cases this
-      · cases this
+      · split at this <;> cases this
 
 theorem select_retSecondary {rs : List Resp} {s : Nat} {k : RetKind} (h : selectAction rs s = .retSecondary k) :
     ∃ y ∈ otherResponses rs, ∃ n, otherArm y = some (n, .retSecondary k) := by
